@@ -38,8 +38,10 @@ func (c *kase) fillFlags() {
 		n.in = certmagic.SubjectIsInternal(n.s)
 		n.ld = c.loaded && staticCertCovers(n.s)
 		n.mw = make([]bool, len(c.names))
+		n.hm = make([]bool, len(c.names))
 		for j := range c.names {
 			n.mw[j] = certmagic.MatchWildcard(n.s, c.names[j].s)
+			n.hm[j] = hostMatches(n.s, c.names[j].s)
 		}
 	}
 }
@@ -69,7 +71,11 @@ func (c *kase) encode() string {
 		for _, m := range n.mw {
 			row += b01(m)
 		}
-		names = append(names, core.Hex(n.s)+":"+b01(n.q)+b01(n.pub)+b01(n.ip)+b01(n.in)+b01(n.ld)+":"+row)
+		hrow := ""
+		for _, m := range n.hm {
+			hrow += b01(m)
+		}
+		names = append(names, core.Hex(n.s)+":"+b01(n.q)+b01(n.pub)+b01(n.ip)+b01(n.in)+b01(n.ld)+":"+row+":"+hrow)
 	}
 	var srvs []string
 	for _, s := range c.servers {
@@ -319,10 +325,10 @@ func (prop) Generate(rng *core.Rand, tier string, emit func(string)) {
 	}
 	// malformed stream
 	for _, l := range []string{
-		"cfg", "cfg 4 0 0 - - - 0", "nop 1 2 3", "cfg 0 0 0 -:00000:1 - - 0", "cfg 4 0 0 -:00000:1 - - 2",
-		"cfg 4 0 0 -:00000:1 7330/0.-.0.0/00000/-/-/- - 0", "cfg 4 0 0 -:00000:1 7330/0.-.443.443/00000/-/-/h1 - 0",
-		"cfg 4 0 0 61:00000:1 - - 0", "cfg 4 0 0 -:00000:1;-:00000:11 - - 0", "cfg 4 0 0 -:00000:1 - 1/a 0",
-		"cfg 4 70000 0 -:00000:1 - - 0", "cfg 4 0 0 -:00000:1 7330/0.-.443.443/00003/-/-/- - 0",
+		"cfg", "cfg 4 0 0 - - - 0", "nop 1 2 3", "cfg 0 0 0 -:00000:1:0 - - 0", "cfg 4 0 0 -:00000:1:0 - - 2",
+		"cfg 4 0 0 -:00000:1:0 7330/0.-.0.0/00000/-/-/- - 0", "cfg 4 0 0 -:00000:1:0 7330/0.-.443.443/00000/-/-/h1 - 0",
+		"cfg 4 0 0 61:00000:1:0 - - 0", "cfg 4 0 0 -:00000:1:0;-:00000:11:00 - - 0", "cfg 4 0 0 -:00000:1:0 - 1/a 0",
+		"cfg 4 70000 0 -:00000:1:0 - - 0", "cfg 4 0 0 -:00000:1:0 7330/0.-.443.443/00003/-/-/- - 0",
 	} {
 		emit(l)
 	}
